@@ -282,6 +282,10 @@ def run(ctx: Ctx) -> None:
         d = gen.meta_dict(rng)                  # data that looks like file metadata (keys/values the library knows, codec names)
         if in_dom(d):
             cases.append({"kind": "dict", "d": enc(d)})
+    for _ in range(ctx.n(25, 400)):
+        d = gen.size_dict(rng)                  # around size thresholds (counts, lengths, digits)
+        if in_dom(d):
+            cases.append({"kind": "dict", "d": enc(d)})
     for _ in range(ctx.n(1200, 30000)):
         d = gen_dict(rng)
         if in_dom(d):
